@@ -30,7 +30,7 @@ func init() {
 			"cancellation while the hand-off is blocked on an unready correlator, cancellation before the call, correlator busy for 0.3-9 simulated seconds with the line going through the real syslog ingester callback} enumerated within each group of runs; the sshd processor runs as a simulated task, the correlator side of the " +
 			"unbuffered logins channel is a second task under scheduler control; negatives: failure forms, unrecognised lines and failure lines whose client-chosen user name embeds a complete accepted-login message must forward nothing and write no succeeded event; " +
 			"non-trivial = the intended fault fired (or, for none/delayed, exactly one hand-off was observed); distinct = distinct (message, fault, delay, schedule hash)",
-		Quick: 4000, Thorough: 200000,
+		Quick: 8000, Thorough: 300000,
 	})
 }
 
